@@ -177,6 +177,23 @@ def p_secflt(_=None):
     return prog
 
 
+def p_secgrp(_=None):
+    async def prog(mpc):
+        import mpyc.fingroups as fg
+        G = fg.QuadraticResidues(l=16)
+        secgrp = mpc.SecGrp(G)
+        secfld = mpc.SecFld(G.order)
+        g = G.generator
+        h = g ^ 3
+        x = mpc.input(secfld(3 + mpc.pid))              # exponents from every party: available at different times
+        a = secgrp.repeat_public(g, x[0])                # two public-output exponentiations in flight at once
+        b = secgrp.repeat_public(h, x[-1])
+        c = secgrp.repeat(g, x[0]) @ secgrp(h)           # secret output, then a secure group operation
+        d = mpc.output(c)
+        return int((await a).value), int((await b).value), int((await d).value)
+    return prog
+
+
 def p_np(_=None):
     async def prog(mpc):
         import numpy as np
@@ -202,4 +219,5 @@ PROGRAMS = {
     'output_subset': (p_output_subset, {'int', 'subset'}),
     'secflt': (p_secflt, {'flt'}),
     'np': (p_np, {'np'}),
+    'secgrp': (p_secgrp, {'grp'}),
 }
